@@ -14,6 +14,7 @@ package main
 import (
 	"context"
 	"fmt"
+	"math"
 	"sort"
 	"strings"
 	"sync"
@@ -216,10 +217,10 @@ type counts struct {
 	conv, annot int64
 }
 
-func checkCase(r *kit.Run, col *collector, t polycut.Truth, c polycut.Case, n *counts) {
+func checkCase(r *kit.Run, col *collector, t polycut.Truth, c polycut.Case, n *counts, sample bool) {
 	plain := polycut.Build(t, c, polycut.Options{})
 	r.Case(c.Fingerprint(), nonTrivial(plain))
-	if r.WantSample() {
+	if sample {
 		r.Sample(map[string]interface{}{"case": c, "members": plain.Members, "relation": plain.Relation})
 	}
 	checkCaseNoKit(col, t, c, n)
@@ -277,13 +278,44 @@ func checkCaseNoKit(col *collector, t polycut.Truth, c polycut.Case, n *counts) 
 	}
 }
 
+// describe prints a geometry in grid units (coordinate * 1e7, rounded).
 func describe(g orb.Geometry) string {
-	s := fmt.Sprintf("%s %v", g.GeoJSONType(), g)
-	s = strings.ReplaceAll(s, "e-07", "")
-	if len(s) > 600 {
-		s = s[:600] + "..."
+	grid := func(r orb.Ring) string {
+		var sb strings.Builder
+		sb.WriteByte('[')
+		for i, p := range r {
+			if i > 0 {
+				sb.WriteByte(' ')
+			}
+			fmt.Fprintf(&sb, "(%d,%d)", int64(math.Round(p[0]*1e7)), int64(math.Round(p[1]*1e7)))
+		}
+		sb.WriteByte(']')
+		return sb.String()
 	}
-	return s
+	poly := func(p orb.Polygon) string {
+		var parts []string
+		for _, r := range p {
+			parts = append(parts, grid(r))
+		}
+		return "{" + strings.Join(parts, " ") + "}"
+	}
+	var s string
+	switch v := g.(type) {
+	case orb.Polygon:
+		s = "Polygon " + poly(v)
+	case orb.MultiPolygon:
+		var parts []string
+		for _, p := range v {
+			parts = append(parts, poly(p))
+		}
+		s = "MultiPolygon " + strings.Join(parts, " ")
+	default:
+		s = fmt.Sprintf("%s %v", g.GeoJSONType(), g)
+	}
+	if len(s) > 700 {
+		s = s[:700] + "..."
+	}
+	return s + " (grid units = 1e-7 degrees)"
 }
 
 func main() {
@@ -302,7 +334,7 @@ func main() {
 				kit.Fatalf("replay names unknown truth %q", c.Truth)
 			}
 			var n counts
-			checkCase(r, col, t, c, &n)
+			checkCase(r, col, t, c, &n, true)
 			report(r, col)
 			return
 		}
@@ -324,8 +356,10 @@ func main() {
 			u := us[i]
 			var n counts
 			orders := polycut.Orders(u.cfg, full)
-			for _, o := range orders {
-				checkCase(r, col, u.truth, polycut.Case{Truth: u.truth.Name, Config: u.cfg, Order: o}, &n)
+			for k, o := range orders {
+				// samples: the middle order of six configurations spread over the plan
+				sample := k == len(orders)/2 && i%(len(us)/6+1) == len(us)/12
+				checkCase(r, col, u.truth, polycut.Case{Truth: u.truth.Name, Config: u.cfg, Order: o}, &n, sample)
 			}
 			mu.Lock()
 			perTruth[u.truth.Name] += int64(len(orders))
